@@ -58,7 +58,7 @@ func (S05) Info() scen.Info {
 			"goroutine scheduling": "stub: seeded one-at-a-time scheduler",
 		},
 		QuickUnits: 80000, ThoroughUnits: 3000000, QuickSecs: 240, ThoroughSecs: 1200,
-		ProbeKeys: []string{"probe.store_then_load", "probe.same_value_two_orders", "probe.same_value_two_impls", "probe.load_never_stored", "probe.reload_of_loaded_node_stored", "probe.fill_reused_builder", "probe.cidv0", "probe.identity_hash", "probe.truncated_digest", "probe.concurrent_store_load"},
+		ProbeKeys: []string{"probe.trusted_storage", "probe.identity_reifier", "probe.store_then_load", "probe.same_value_two_orders", "probe.same_value_two_impls", "probe.load_never_stored", "probe.reload_of_loaded_node_stored", "probe.fill_reused_builder", "probe.cidv0", "probe.identity_hash", "probe.truncated_digest", "probe.concurrent_store_load"},
 		EventsKey: "events",
 	}
 }
@@ -224,6 +224,18 @@ func (S05) RunTape(t *sim.Tape, st *sim.Stats, keepLog bool) *sim.Outcome {
 		return &simstore.ReadFault{Err2At: -1, Chunk: []int{0, 0, 1, 7, 4096}[t.Choice(5, "chunk")], Random: t.Bool("chunk.random"), EOFWith: t.Bool("chunk.eofwith"), Stall: t.Choice(3, "stall")}
 	}
 	seam.Wrap(&lsys)
+	// two switches that must not change anything over honest storage: storage declared trusted
+	// (loads skip the hash check) and a NodeReifier that hands every loaded node back as it is
+	if t.Pct(20, "cfg.trusted") {
+		lsys.TrustedStorage = true
+		st.Inc("probe.trusted_storage")
+	}
+	if t.Pct(20, "cfg.reifier") {
+		lsys.NodeReifier = func(_ linking.LinkContext, n datamodel.Node, _ *linking.LinkSystem) (datamodel.Node, error) {
+			return n, nil
+		}
+		st.Inc("probe.identity_reifier")
+	}
 
 	// ---- corpus and prototypes ----
 	nproto := 2 + t.Choice(3, "nproto")
@@ -428,6 +440,14 @@ func (S05) RunTape(t *sim.Tape, st *sim.Stats, keepLog bool) *sim.Outcome {
 				return
 			}
 			checkLink(sig+" ComputeLink", pi, vi, l, false)
+			// the codec helper's bytes, hashed independently, give the same link
+			if enc, eerr := lsys.EncoderChooser(lp); eerr == nil {
+				if b, berr := ipld.Encode(n, enc); berr != nil {
+					o.Fail("computelink-failed", sig, "ipld.Encode of value #%d failed (%v) although ComputeLink succeeded", vi, berr)
+				} else if !hashesTo(l, b) {
+					o.Fail("link-not-hash-of-encoding", sig, "ComputeLink of value #%d returns %s, which is not the hash of ipld.Encode's %d bytes under the same encoder (independent hash)", vi, l, len(b))
+				}
+			}
 			hist = append(hist, fmt.Sprintf("c%d ComputeLink(v%d,%s)", client, vi, impl))
 		default: // loads
 			key := fmt.Sprintf("%d|%x", pi, want.Hash())
